@@ -134,15 +134,20 @@ impl RawReader {
 	/// This is where aliases like `<esc>` and `<CR>` are parsed into KeyEvents
 	pub fn parse_byte_alias(&mut self) -> Option<KeyEvent> {
 		let mut buf = vec![];
+		let mut closed = false;
 		let mut byte_iter = self.bytes.iter().copied();
 		for b in byte_iter.by_ref() {
 			match b {
-				b'>' => break,
+				b'>' => {
+					closed = true;
+					break
+				}
 				_ => buf.push(b)
 			}
 		}
 
-		if buf.is_empty() {
+		// '<' without a closing '>' is just a '<'
+		if buf.is_empty() || !closed {
 			return None
 		}
 
